@@ -320,6 +320,23 @@ theorem stale_spec {u : Int} {s s1 : State} {i : Identity} {view : Status} (h : 
 
 /-! ### the "current view" invariant -/
 
+/-- processing a benign older view IS processing the current status -/
+theorem benign_eq_deliver {u : Int} {s : State} {i : Identity} {view : Status} {o : Op}
+    (ho : s.ops i = some o) (hb : benignView u s i o.prio view = true) :
+    step u s (.deliverStale i view) = step u s (.deliver i) := by
+  have hbv := hb
+  simp only [benignView, Bool.and_eq_true, beq_iff_eq, decide_eq_true_eq] at hb
+  obtain ⟨hbl, hcl⟩ := hb
+  simp only [step, ho]
+  by_cases hg : (o.alive && !o.exiting) = true
+  · rw [if_pos hg, if_pos hg]
+    -- same cleaning (hence same version bump and status), same verdict, same sleep, same `seen`
+    have hst : s.status.eraseAll (decideCore u view.peers i o.prio true (some o.paused) s.now s.now).cleaned =
+        s.status.filter (fun e => !(e.2.dead u s.now && e.1 != i)) := by
+      simpa [decideCore] using hcl
+    simp only [hst, decideCore_status_paused, decideCore_touch, hbl, hbv, if_true]
+  · rw [if_neg hg, if_neg hg]
+
 /-- An operator whose last processed version is the current one holds exactly the pause verdict of
     the current status (evaluated at the time it processed it). -/
 def Inv (u : Int) (s : State) : Prop :=
